@@ -295,9 +295,9 @@ pub fn run(prop: &str, tier: &str, replay: Option<&str>) -> i32 {
     {
         let mut lens: Vec<usize> = (0..=300).collect();
         lens.extend([65534, 65535, 65536, 65537, 70000]);
-        let places = ["CN", "dNSName", "custom extension", "CRL DP URI", "rfc822Name", "URI", "otherName value", "name-constraint dNSName", "name-constraint directoryName value", "pre-specified key identifier", "O as BMPString", "O as UniversalString", "custom extension OID arcs", "EKU OID arcs"];
+        let places = ["CN", "dNSName", "custom extension", "CRL DP URI", "rfc822Name", "URI", "otherName value", "name-constraint dNSName", "name-constraint directoryName value", "pre-specified key identifier", "O as BMPString", "O as UniversalString", "custom extension OID arcs", "EKU OID arcs", "O as PrintableString", "O as TeletexString", "O as IA5String", "issuer O as PrintableString"];
         // a pre-specified key identifier beyond what conformant parameters use is still caller input; C05 keeps to <= 20 there
-        let cases: Vec<(usize, usize)> = lens.iter().flat_map(|l| (0..places.len()).map(move |w| (*l, w))).filter(|c| !(c.1 >= 12 && c.0 > 300) && !(conformant_only && c.1 == 9 && c.0 > 20)).collect();
+        let cases: Vec<(usize, usize)> = lens.iter().flat_map(|l| (0..places.len()).map(move |w| (*l, w))).filter(|c| !((c.1 == 12 || c.1 == 13) && c.0 > 300) && !(conformant_only && c.1 == 9 && c.0 > 20)).collect();
         let ctx = stub_self_ctx(Alg::Ed25519, 1);
         let ictx = stub_issuer_ctx(Alg::EcP256, &DnSpec::cn("issuer"), &KeyIdSpec::Pre(vec![7; 20]), Alg::Ed25519, "pair");
         let sec = Section::new("sweep/sizes", &format!("every length 0..=300 and 65534..=65537, 70000 (short-form, 0x81, 0x82 and 0x83 DER lengths) in {} places: {}", places.len(), places.join(", ")));
@@ -327,8 +327,17 @@ pub fn run(prop: &str, tier: &str, replay: Option<&str>) -> i32 {
                 }
                 10 => st.dn = DnSpec(vec![(DnTypeSpec::O, StrKind::Bmp, "b".repeat(n))]),
                 11 => st.dn = DnSpec(vec![(DnTypeSpec::O, StrKind::Universal, "u".repeat(n))]),
+                14 => st.dn = DnSpec(vec![(DnTypeSpec::O, StrKind::Printable, "p".repeat(n))]),
+                15 => st.dn = DnSpec(vec![(DnTypeSpec::O, StrKind::Teletex, "t".repeat(n))]),
+                16 => st.dn = DnSpec(vec![(DnTypeSpec::O, StrKind::Ia5, "i".repeat(n))]),
+                17 => {}
                 12 => st.custom_exts = vec![CustomExtSpec { oid: [1u64, 3].iter().cloned().chain((0..n as u64).map(|i| 200 + i % 7)).collect(), critical: false, content: vec![5, 0], acme: false }],
                 _ => st.ekus = vec![EkuSpec::ServerAuth, EkuSpec::Other([1u64, 3].iter().cloned().chain((0..n as u64).map(|i| 16384 + i % 3)).collect())],
+            }
+            if c.1 == 17 {
+                // the long value sits in the ISSUER's name (a context of its own per length)
+                let ic = stub_issuer_ctx(Alg::EcP256, &DnSpec(vec![(DnTypeSpec::O, StrKind::Printable, "q".repeat(n))]), &KeyIdSpec::Sha256, Alg::Ed25519, "pair");
+                return judge.judge(&st, &ic);
             }
             let mut out = judge.judge(&st, &ctx);
             if c.1 == 9 {
